@@ -189,3 +189,178 @@ theorem processOne_done (l : List WItem) (h : (processOne l).2 = false) :
   exact splitPair_none_normal _ hn
 
 end Model
+
+/-! ### termination: the fuel of `wickNormalForm` suffices, so its result is normal ordered -/
+namespace Model
+
+/-- number of daggered operators -/
+def nDag (ops : List (Nat × Bool)) : Nat := (ops.filter (fun o => o.2)).length
+/-- number of undaggered operators -/
+def nUndag (ops : List (Nat × Bool)) : Nat := (ops.filter (fun o => !o.2)).length
+
+/-- number of inversions: pairs (undaggered operator, later daggered operator) -/
+def inv : List (Nat × Bool) → Nat
+  | [] => 0
+  | (_, true) :: rest => inv rest
+  | (_, false) :: rest => nDag rest + inv rest
+
+theorem nDag_append (l1 l2 : List (Nat × Bool)) : nDag (l1 ++ l2) = nDag l1 + nDag l2 := by
+  unfold nDag; rw [List.filter_append, List.length_append]
+
+theorem nUndag_append (l1 l2 : List (Nat × Bool)) : nUndag (l1 ++ l2) = nUndag l1 + nUndag l2 := by
+  unfold nUndag; rw [List.filter_append, List.length_append]
+
+theorem inv_append (l1 l2 : List (Nat × Bool)) : inv (l1 ++ l2) = inv l1 + inv l2 + nUndag l1 * nDag l2 := by
+  induction l1 with
+  | nil => simp [inv, nUndag]
+  | cons o rest ih =>
+    obtain ⟨x, d⟩ := o
+    cases d with
+    | true =>
+      rw [List.cons_append, inv, inv, ih]
+      simp [nUndag]
+    | false =>
+      rw [List.cons_append, inv, inv, ih, nDag_append]
+      have : nUndag ((x, false) :: rest) = nUndag rest + 1 := by simp [nUndag]
+      rw [this, Nat.add_mul]
+      omega
+
+theorem inv_swap (pre post : List (Nat × Bool)) (x y : Nat) :
+    inv (pre ++ [(y, true), (x, false)] ++ post) + 1 = inv (pre ++ [(x, false), (y, true)] ++ post) := by
+  simp only [List.append_assoc, inv_append, nDag_append, nUndag_append]
+  simp [inv, nDag, nUndag]
+  omega
+
+theorem inv_remove (pre post : List (Nat × Bool)) (x y : Nat) :
+    inv (pre ++ post) + 1 ≤ inv (pre ++ [(x, false), (y, true)] ++ post) := by
+  simp only [List.append_assoc, inv_append, nDag_append, nUndag_append]
+  simp [inv, nDag, nUndag]
+  have : (List.filter (fun o => !o.2) pre).length * (List.filter (fun o => o.2) post).length ≤
+      (List.filter (fun o => !o.2) pre).length * (1 + (List.filter (fun o => o.2) post).length) :=
+    Nat.mul_le_mul_left _ (by omega)
+  omega
+
+theorem inv_zero_of_normal : ∀ (ops : List (Nat × Bool)), isNormal ops = true → inv ops = 0 := by
+  intro ops
+  induction ops with
+  | nil => intro _; rfl
+  | cons o rest ih =>
+    intro h
+    obtain ⟨x, d⟩ := o
+    cases d with
+    | true => exact ih h
+    | false =>
+      simp only [isNormal] at h
+      rw [inv]
+      have hall : ∀ o ∈ rest, o.2 = false := by
+        intro o ho
+        have := List.all_eq_true.1 h o ho
+        simpa using this
+      have h1 : nDag rest = 0 := by
+        unfold nDag
+        rw [List.length_eq_zero_iff, List.filter_eq_nil_iff]
+        intro o ho; simp [hall o ho]
+      have h2 : isNormal rest = true := by
+        cases rest with
+        | nil => rfl
+        | cons o2 r2 =>
+          obtain ⟨x2, d2⟩ := o2
+          have := hall (x2, d2) List.mem_cons_self
+          simp only at this
+          subst this
+          simp only [isNormal]
+          apply List.all_eq_true.2
+          intro o ho
+          simp [hall o (List.mem_cons_of_mem _ ho)]
+      rw [h1, ih h2]
+
+theorem normal_of_inv_zero : ∀ (ops : List (Nat × Bool)), inv ops = 0 → isNormal ops = true := by
+  intro ops h
+  cases hs : splitPair ops with
+  | none => exact splitPair_none_normal ops hs
+  | some r =>
+    obtain ⟨pre, x, y, post⟩ := r
+    have := splitPair_spec ops pre x y post hs
+    have hr := inv_remove pre post x y
+    rw [← this] at hr
+    omega
+
+/-- every entry produced by one step has at most `inv − 1` inversions when the entry was rewritten -/
+theorem wstep_inv (it : WItem) (k : Nat) (h : inv it.ops ≤ k + 1) : ∀ c ∈ wstep it, inv c.ops ≤ k := by
+  intro c hc
+  unfold wstep at hc
+  cases hs : splitPair it.ops with
+  | none =>
+    rw [hs] at hc
+    simp at hc
+    subst hc
+    have := inv_zero_of_normal _ (splitPair_none_normal _ hs)
+    omega
+  | some r =>
+    obtain ⟨pre, x, y, post⟩ := r
+    rw [hs] at hc
+    have hops := splitPair_spec it.ops pre x y post hs
+    simp only [List.mem_cons, List.mem_nil_iff, or_false] at hc
+    rcases hc with rfl | rfl
+    · simp only
+      have := inv_swap pre post x y
+      rw [← hops] at this
+      omega
+    · simp only
+      have := inv_remove pre post x y
+      rw [← hops] at this
+      omega
+
+theorem processOne_inv (l : List WItem) (k : Nat) (h : ∀ it ∈ l, inv it.ops ≤ k + 1) :
+    ∀ c ∈ (processOne l).1, inv c.ops ≤ k := by
+  intro c hc
+  unfold processOne at hc
+  simp only [] at hc
+  rw [List.mem_flatMap] at hc
+  obtain ⟨it, hit, hmem⟩ := hc
+  exact wstep_inv it k (h it hit) c hmem
+
+/-- with fuel above the inversion bound the loop ends on normal-ordered entries -/
+theorem wnormalize_normal : ∀ (fuel : Nat) (l : List WItem), (∀ it ∈ l, inv it.ops ≤ fuel) →
+    ∀ c ∈ wnormalize fuel l, isNormal c.ops = true := by
+  intro fuel
+  induction fuel with
+  | zero =>
+    intro l h c hc
+    rw [wnormalize] at hc
+    exact normal_of_inv_zero _ (by have := h c hc; omega)
+  | succ n ih =>
+    intro l h c hc
+    rw [wnormalize] at hc
+    by_cases hp : (processOne l).2 = true
+    · simp only [hp, if_true] at hc
+      exact ih _ (processOne_inv l n h) c hc
+    · simp only [hp, Bool.false_eq_true, if_false] at hc
+      exact processOne_done l (by simpa using hp) c hc
+
+theorem inv_le_sq : ∀ (ops : List (Nat × Bool)), inv ops ≤ ops.length * ops.length := by
+  intro ops
+  induction ops with
+  | nil => simp [inv]
+  | cons o rest ih =>
+    obtain ⟨x, d⟩ := o
+    have hd : nDag rest ≤ rest.length := List.length_filter_le _ _
+    have hsq : rest.length * rest.length + rest.length ≤ (rest.length + 1) * (rest.length + 1) := by
+      rw [Nat.add_mul, Nat.mul_add]; omega
+    cases d with
+    | true => rw [inv, List.length_cons]; omega
+    | false => rw [inv, List.length_cons]; omega
+
+/-- **the normal form is normal ordered**, for every pattern -/
+theorem wickNormalForm_normal (pattern : List (Nat × Bool)) :
+    ∀ c ∈ wickNormalForm pattern, isNormal c.ops = true := by
+  unfold wickNormalForm
+  apply wnormalize_normal
+  intro it hit
+  simp at hit
+  subst hit
+  have := inv_le_sq pattern
+  simp only
+  omega
+
+end Model
